@@ -91,6 +91,7 @@ import logging
 import os
 import pprint
 import threading
+import tokenize
 import traceback
 import typing
 from typing import Any, Callable, Dict, Optional, Sequence, Set, Tuple, Type, Union, Mapping, List
@@ -1062,11 +1063,12 @@ def _format_value(value):
     A string representation of `value` when `value` is literally representable,
     or `None`.
   """
-  literal = repr(value)
   try:
+    literal = repr(value)
     if parse_value(literal) == value:
       return literal
-  except SyntaxError:
+  except (SyntaxError, ValueError, RecursionError, tokenize.TokenError):
+    # The repr can't be produced, tokenized or parsed: no literal form.
     pass
   return None
 
